@@ -129,17 +129,24 @@ STREAM(ca_prog) {
           case 1: xi = rng.sbits(49); memcpy(&a[8 * i], &xi, 8); break;
           case 2: { int32_t t = (int32_t)rng.next(); memcpy(&a[4 * i], &t, 4); break; }
           case 3: x = (double)rng.sbits(17) * p.divisor + (double)rng.sbits(20) / 1048576.0; memcpy(&a[8 * i], &x, 8); break;
-          default: x = (double)rng.sbits(30) / 1024.0; memcpy(&a[8 * i], &x, 8); break;
+          default: x = (double)rng.sbits(30) / 1024.0 + 1.0 / 3.0; memcpy(&a[8 * i], &x, 8); break;
         }
-        y = (double)rng.sbits(30) / 4096.0;
+        y = (double)rng.sbits(30) / 4096.0 + 1.0 / 7.0;  // not exactly representable products: fused and unfused roundings differ
         memcpy(&b[8 * i], &y, 8);
         double z = (double)rng.sbits(20);
         memcpy(&o1[8 * i], &z, 8);
       }
       o2 = o1;
+      // the convenience call runs on copies placed at other byte offsets (C15: no dependence on alignment)
+      size_t oa = 8 * rng.below(8), ob = 8 * rng.below(8), oo = 8 * rng.below(8);
+      std::vector<uint8_t> a_s(nb + 64), b_s(nb + 64), o_s(nb + 64);
+      memcpy(a_s.data() + oa, a.data(), nb);
+      memcpy(b_s.data() + ob, b.data(), nb);
+      memcpy(o_s.data() + oo, o1.data(), nb);
       uint64_t q0 = spqlios_verif_cpu_query_count();
-      f.simple(p, a.data(), b.data(), o1.data());
+      f.simple(p, a_s.data() + oa, b_s.data() + ob, o_s.data() + oo);
       uint64_t q1 = spqlios_verif_cpu_query_count();
+      memcpy(o1.data(), o_s.data() + oo, nb);
       f.fresh(p, a.data(), b.data(), o2.data());
       if (memcmp(o1.data(), o2.data(), nb) != 0 && verdict == "ok") {
         char buf[200];
